@@ -11,26 +11,40 @@ CONSTANTS Cfg0,       \* configuration record (see TemporalityModel)
 
 Cfg == WithTables(Cfg0)
 
-VARIABLES st, nops, act, hist
-vars == <<st, nops, act, hist>>
+VARIABLES st, nops, nfault, act, hist
+vars == <<st, nops, nfault, act, hist>>
 
 NoObs == [a \in Attrs(Cfg) |-> 0]
 Tables == IF Async(Cfg) THEN [Attrs(Cfg) -> 0..NV(Cfg)] ELSE {NoObs}
 
-Init == st = InitState(Cfg) /\ nops = 0 /\ act = [op |-> "Init"] /\ hist = <<>>
+Init == st = InitState(Cfg) /\ nops = 0 /\ nfault = 0 /\ act = [op |-> "Init"] /\ hist = <<>>
+
+(* FAULTS of the asynchronous part (at most MaxFault per history).  fail = callbacks    *)
+(* that return an error after making their observations (obs = what was observed; a     *)
+(* callback failing WITHOUT observing is a table without its sets).  Abort = a           *)
+(* collection point whose Collect context is cancelled / expires: it reports nothing,    *)
+(* the statement does not speak about it, the model state does not change -- and the     *)
+(* next, healthy cycle is exact as always.                                               *)
+MaxFault == 1
+FailSets == IF Async(Cfg) /\ nfault < MaxFault THEN {{}} \cup {{c} : c \in 0..(Cfg.ncb - 1)} ELSE {{}}
+OfOf(obs, fail) == [a \in Attrs(Cfg) |-> obs[a] # 0 /\ CbOf(Cfg, a) \in fail /\ CbOf(Cfg, a) \in st.reg]
 
 Rec(a, j) == /\ ~Async(Cfg) /\ st.k < MaxCycles /\ nops < MaxOps
-             /\ st' = DoRec(Cfg, st, a, j) /\ nops' = nops + 1
+             /\ st' = DoRec(Cfg, st, a, j) /\ nops' = nops + 1 /\ UNCHANGED nfault
              /\ act' = [op |-> "Rec", a |-> a, j |-> j]
 Reg(c) == /\ Async(Cfg) /\ st.k < MaxCycles /\ nops < MaxOps /\ c \notin st.reg
-          /\ st' = DoReg(Cfg, st, c) /\ nops' = nops + 1
+          /\ st' = DoReg(Cfg, st, c) /\ nops' = nops + 1 /\ UNCHANGED nfault
           /\ act' = [op |-> "Reg", c |-> c]
 Unreg(c) == /\ Async(Cfg) /\ st.k < MaxCycles /\ nops < MaxOps /\ c \in st.reg /\ c # 0
-            /\ st' = DoUnreg(Cfg, st, c) /\ nops' = nops + 1
+            /\ st' = DoUnreg(Cfg, st, c) /\ nops' = nops + 1 /\ UNCHANGED nfault
             /\ act' = [op |-> "Unreg", c |-> c]
-Collect(obs) == /\ st.k < MaxCycles
-                /\ st' = DoCollect(Cfg, st, obs) /\ nops' = 0
-                /\ act' = [op |-> "Collect", obs |-> obs]
+Collect(obs, fail) == /\ st.k < MaxCycles
+                      /\ st' = DoCollectF(Cfg, st, obs, OfOf(obs, fail)) /\ nops' = 0
+                      /\ nfault' = IF fail = {} THEN nfault ELSE nfault + 1
+                      /\ act' = [op |-> "Collect", obs |-> obs, fail |-> fail]
+Abort(obs) == /\ Async(Cfg) /\ st.k < MaxCycles /\ nfault < MaxFault
+              /\ st' = st /\ nops' = nops /\ nfault' = nfault + 1
+              /\ act' = [op |-> "Abort", obs |-> obs, fail |-> {}]
 
 (* one named disjunct per operation of the history (TLC reports coverage per disjunct) *)
 DoRecord == \E a \in Attrs(Cfg), j \in 1..NV(Cfg) : Rec(a, j) /\ hist' = Append(hist, act')
@@ -40,8 +54,9 @@ DoUnregister == \E c \in 1..(Cfg.ncb - 1) : Unreg(c) /\ hist' = Append(hist, act
 (* (pipeline lock), so two overlapping Collect calls are two consecutive DoCollectPoint *)
 (* steps with no operation in between, in one of the two orders (see TOver in         *)
 (* Trace_Temporality).                                                                *)
-DoCollectPoint == \E obs \in Tables : Collect(obs) /\ hist' = Append(hist, act')
-Next == DoRecord \/ DoRegister \/ DoUnregister \/ DoCollectPoint
+DoCollectPoint == \E obs \in Tables, fail \in FailSets : Collect(obs, fail) /\ hist' = Append(hist, act')
+DoAbortedPoint == \E obs \in Tables : Abort(obs) /\ hist' = Append(hist, act')
+Next == DoRecord \/ DoRegister \/ DoUnregister \/ DoCollectPoint \/ DoAbortedPoint
 Spec == Init /\ [][Next]_vars
 
 (* act and hist are history variables, hidden from the fingerprint.  TLC expands     *)
@@ -62,7 +77,8 @@ VBags(f) == [a \in Attrs(Cfg) |-> VBag(f[a])]
 (* an implementation (when it re-scales, what its bucket memory held before): there  *)
 (* every operation sequence is a state of its own.                                   *)
 View == <<st.k, st.reg, VBags(st.cur), st.prev, VBags(st.tot), VBags(st.totS), st.runV, VBags(st.runB),
-          st.dstart, nops, IF Cfg.wide THEN hist ELSE <<>>>>
+          st.dstart, nops, nfault, st.prevF, IF Cfg.wide THEN hist ELSE <<>>,
+          IF act.op = "Abort" THEN act.obs ELSE <<>>>>   \* (what an aborted collection left behind must not matter: try each)
 EmitEdge == act'.op = "Collect" => PrintT("EDGE " \o ToJson([path |-> hist, act |-> act', k |-> st'.k]))
 
 (* the statement on the model, as an action property: evaluated on every explored   *)
